@@ -562,8 +562,9 @@ def run_case(spec):
 
     def expect_fields(exc):
         for depth, klass in enumerate(type(exc).__mro__):
-            if klass in registry:
-                name, kind = registry[klass]
+            hit = next((v for k, v in registry.items() if k is klass), None)  # (by identity: a class object need not be hashable)
+            if hit is not None:
+                name, kind = hit
                 lookups.append((type(exc).__name__, depth, kind))
                 if kind == "default":
                     return {"errno": exc.errno}
